@@ -191,7 +191,7 @@ def _gen_body(run, backend, rnd, nmsg, nops, concurrent):
                 mut_op(1, rnd.choice(pool))
             steps += 1
         r = rnd.random()
-        if r < 0.12 and len(live) >= 2 and backend != 'dict':   # the dict backend's load never yields: no overlap is possible there
+        if r < 0.12 and len(live) >= 2 and backend not in ('dict', 'shelf'):   # the dict backend's load never yields: no overlap is possible there
             victim = rnd.choice(sorted(live))
             a_ = {'_victim': victim}
             run.ev.append(None)             # placeholder: the call event must be named 'load' for the observer
@@ -225,10 +225,11 @@ def main():
     f = open(out, 'w')
     stats = {'executions': 0, 'concurrent': 0}
     n = 0
-    per = {'dict': 25 if quick else 400, 'disk': 8 if quick else 120, 'redis': 25 if quick else 400, 'cloud': 25 if quick else 400}
-    for backend in ('dict', 'disk', 'redis', 'cloud'):
+    per = {'dict': 25 if quick else 400, 'disk': 8 if quick else 120, 'redis': 25 if quick else 400, 'cloud': 25 if quick else 400,
+           'shelf': 10 if quick else 150}
+    for backend in ('dict', 'shelf', 'disk', 'redis', 'cloud'):
         for k in range(per[backend]):
-            conc = backend != 'dict' and k % 2 == 1
+            conc = backend not in ('dict', 'shelf') and k % 2 == 1
             run = gen_case(backend, rnd, rnd.randint(1, 4), rnd.randint(3, 14), conc)
             stats['executions'] += 1
             stats['concurrent'] += 1 if conc else 0
